@@ -76,6 +76,9 @@ func zzH_C12_expand() {
 	cur := mk(7)
 	sel1, sel2 := mk(3), mk(5)
 	query := "q'$"
+	if zzv.Bool() {
+		query = "{} '{+}"
+	}
 	params := replacePlaceholderParams{
 		delimiter: Delimiter{}, printsep: "\n", query: query,
 		allItems: []*Item{cur, sel1, sel2}, executor: ex, prompt: "> "}
